@@ -482,11 +482,12 @@ from elementpath.xpath31 import XPath31Parser             # noqa: E402
 
 CONS_PATTERNS = [r'b', r'a+', r'[0-9]+', r'(a)(c)?b', r'(\d+)(\.\d+)?', r'(a)|(b)', r'\s+', r',\s*', r'(ab)+', r'a.c', r'x|yz', r'(a(b))(c)?', r'[a-c-[b]]', r'\p{Lu}',
                  r'1.2', r'^a', r'c$', r'(a)\1', r'(?:a|b)c' if False else r'(a|b)c', r'A', r'a b', r'\.', r'(b)(?:)' if False else r'(b)', r'é+', r'[^,]+', r'-',
-                 r'(a)(b)(c)(d)(e)(f)(g)(h)(i)(j)\10', r'(a)(b)(c)(d)(e)(f)(g)(h)(i)\10', r'(a)(b)(c)(d)(e)(f)(g)(h)(i)(j)(k)(l)\11', r'(.)\1', r'(a*)b\1', r'<', r'&|b', r'(<)(b)?', r'\\', r'a#b', r'[\$x]', r'\$', r'\i\c*', r'[\i-[:]]+']
-CONS_SUBJECTS = ['', 'abc', 'xabyz', 'a,b, c', 'aaa', '12.5 and 7', 'ab ab', 'x1\n2y', 'a\nc', 'ABC abc', 'abcdefghijj', 'abcdefghija0', 'abcdefghi1', 'abcdefghijklk',
+                 r'(a)(b)(c)(d)(e)(f)(g)(h)(i)(j)\10', r'(a)(b)(c)(d)(e)(f)(g)(h)(i)\10', r'(a)(b)(c)(d)(e)(f)(g)(h)(i)(j)(k)(l)\11', r'(.)\1', r'(a*)b\1', r'<', r'&|b', r'(<)(b)?', r'\\', r'a#b', r'[\$x]', r'\$', r'\i\c*', r'[\i-[:]]+',
+                 r'a{2,10}', r'a{1,03}', r'b{1,1}c', r'[ab]{3,12}', r'a{2,}', r'a{0,1}b', r'(ab){1,10}']
+CONS_SUBJECTS = ['', 'abc', 'xabyz', 'aaaaaaaaaaaab', 'abababababab', 'a,b, c', 'aaa', '12.5 and 7', 'ab ab', 'x1\n2y', 'a\nc', 'ABC abc', 'abcdefghijj', 'abcdefghija0', 'abcdefghi1', 'abcdefghijklk',
                  'aa', 'aba', 'aabaa', 'éé-e', ' a  b ', 'cabc', '1x2', 'a b', '-a-', 'abcdefghia0', 'a<b&c>d', 'b\rb', '<a b="c">&amp;</a>', 'a\\b', 'a#b', 'ac', '$x\\', '\U00010000\U00010001 z']
 CONS_FLAGS = ['', 's', 'i', 'm', 'x', 'si', 'q']
-INVALID = [r'(', r')', r'[', r'[]', r'a{2,1}', r'*a', r'a**', r'\p{Xx}', r'\p{IsNoSuchBlock}', r'[a-', r'\q', r'(?=a)', r'(?i)a', r'a{', r'[z-a]', r'\1', r'(a)\2', r'[[a]]',
+INVALID = [r'(', r')', r'[', r'[]', r'a{2,1}', r'a{10,9}', r'a{100,20}', r'a{12,3}', r'a{010,9}', r'*a', r'a**', r'\p{Xx}', r'\p{IsNoSuchBlock}', r'[a-', r'\q', r'(?=a)', r'(?i)a', r'a{', r'[z-a]', r'\1', r'(a)\2', r'[[a]]',
            r'\p{L', r'a|*', r'+', r'[a-b-c]', r'\u0041', r'(?<n>a)', r'a{1,2,3}', r'\_']
 
 
@@ -641,6 +642,41 @@ def function_consistency(tier, seed):
         if g != ('ok', want):
             bad('matches differs from the regular expression semantics (name escapes beyond the BMP, escaped dollar in a class, # under the x flag)', pattern=p, flags=fl,
                 subject=subj, got=repr(g)[:60], want=want)
+    # an invalid replacement string is an error whether or not the input has a match (FORX0004); valid ones are not
+    for repl, valid in (('$', False), ('$x', False), ('\\', False), ('a\\b', False), ('$1', True), ('\\$', True), ('\\\\', True), ('x$', False), ('$0$', False)):
+        for subj in ('', 'zzz', 'abc'):
+            n += 1
+            g = _xp('replace($s, $p, $r)', s=subj, p='b', r=repl)
+            ok = g[0] == 'ok' if valid else g == ('err', 'FORX0004')
+            if not ok:
+                bad('replace: the replacement string is validated independently of the input (FORX0004)', replacement=repl, subject=subj, got=repr(g)[:60],
+                    want='a string' if valid else 'FORX0004')
+    # a class escape inside and outside a class denotes the same set after the Unicode data has been changed and restored (history)
+    try:
+        from elementpath.regex import install_unicode_data, unicode_version
+        import unicodedata as _ud
+        probes = ['\U00010D40', '\u0660', '5', 'a', '\U0001E5F1', '_']
+        start_version = unicode_version()
+        versions = [v for v in ('16.0.0', '15.0.0', '13.0.0', None) if v is None or v != start_version]
+        for hist in versions[:3]:
+            for cls_, ref in (('[\\d]', '\\p{Nd}'), ('[\\D]', '\\P{Nd}'), ('[\\w]', '[^\\p{P}\\p{Z}\\p{C}]'), ('[\\W]', '[\\p{P}\\p{Z}\\p{C}]')):
+                _xp('matches("5", $p)', p='^' + cls_ + '$')          # use before the change (fills the lazy tables)
+            try:
+                install_unicode_data(hist) if hist else install_unicode_data()
+            except Exception:      # noqa - version not installable offline: nothing to compare
+                continue
+            for cls_, ref in (('[\\d]', '\\p{Nd}'), ('[\\D]', '\\P{Nd}'), ('[\\w]', '[^\\p{P}\\p{Z}\\p{C}]'), ('[\\W]', '[\\p{P}\\p{Z}\\p{C}]')):
+                for ch in probes:
+                    n += 1
+                    g1, g2 = _xp('matches($s, $p)', s=ch, p='^' + cls_ + '$'), _xp('matches($s, $p)', s=ch, p='^' + ref + '$')
+                    if g1 != g2:
+                        bad('after install_unicode_data a multi-character escape in a class no longer denotes the categories it is defined by', installed=hist or 'default',
+                            escape=cls_, defined_as=ref, char=f'U+{ord(ch):04X}', got=repr(g1)[:40], by_definition=repr(g2)[:40])
+    finally:
+        try:
+            install_unicode_data()
+        except Exception:      # noqa
+            pass
     for p in INVALID:
         n += 1
         try:
